@@ -170,8 +170,14 @@ def one(ctx, dn, directed, idkind, delim, enc, target, big=False):
         elif tgt.opened:
             # files the library opened for a path target must be closed when the call returns
             ctx.expect("path-target-closed", tgt.left_open, [], cfg)
-        data = tgt.data()
-        rows, trailing = iohelp.rows_of(data, enc, delim)
+        try:
+            data = tgt.data()
+            rows, trailing = iohelp.rows_of(data, enc, delim)
+        except (OSError, EOFError, UnicodeError, ValueError) as ex:
+            # e.g. a '.gz' target that does not hold gzip data, or bytes that are not in the requested encoding:
+            # what was written is not the file that was asked for
+            ctx.violation("file:unreadable", dict(cfg, exception=repr(ex)))
+            return
         ctx.expect("rows:newline-terminated", trailing, "", cfg)
         exp = Counter()
         for k, s in m.P.items():
